@@ -47,6 +47,7 @@ Definition ex_ES : ExeA.ArgData.schema :=
      ExeA.ArgData.query := n "Query"; ExeA.ArgData.mutation := None; ExeA.ArgData.subscription := None;
      ExeA.ArgData.s_inputs := [ (n "Boolean", Val.Values.TScalar Val.Values.KBoolean); (n "Float", Val.Values.TScalar Val.Values.KFloat);
                                 (n "Int", Val.Values.TScalar Val.Values.KInt); (n "String", Val.Values.TScalar Val.Values.KString) ];
+     ExeA.ArgData.s_dt := [];
      ExeA.ArgData.s_argdefs := [ (n "Query", [ (n "f", [ (n "k", {| Val.Values.in_type := Val.Values.StNamed (n "Int");
                                                                       Val.Values.in_default := Some (Val.Values.GInt 5) |}) ]) ]) ] |}.
 
@@ -131,7 +132,7 @@ Definition ex_ES_wrong : ExeA.ArgData.schema :=
          (n "Query", ExeA.ArgData.NObject [ (n "i", ExeA.ArgData.StNamed (n "Int")); (n "o", ExeA.ArgData.StNamed (n "Obj")) ] []);
          (n "Obj", ExeA.ArgData.NObject [] []) ];
      ExeA.ArgData.query := n "Query"; ExeA.ArgData.mutation := None; ExeA.ArgData.subscription := None;
-     ExeA.ArgData.s_inputs := []; ExeA.ArgData.s_argdefs := [] |}.
+     ExeA.ArgData.s_inputs := []; ExeA.ArgData.s_dt := []; ExeA.ArgData.s_argdefs := [] |}.
 Example ex_contract_broken :
   pipeline_model ex_VS [] ex_ES_wrong (n "{ o { i } }") [] [] ex_W = PContractBroken CDocOk /\
   schemas_agree ex_VS ex_ES_wrong = false.
